@@ -180,6 +180,11 @@ def gen_c05(ctx):
         cases.append(f"in={a} out={b} err={c} det=0 thread=1 argv={TRUE}")
     for a, b, c in [("N", "M", "N"), ("N", "N", "M"), ("N", "N", "N")] * 2:
         cases.append(f"in={a} out={b} err={c} det=0 argv={TRUE}")
+    # the caller's own standard descriptors are separate opens of one file (`prog >log 2>log`, or all three): `Merge` must
+    # still give the child ONE open file (a shared offset), as `2>&1` does -- the same inode is not the same open file
+    for same in ("12", "012", "01", "02"):
+        for a, b, c in (("N", "M", "N"), ("N", "N", "M"), ("P", "M", "N"), ("P", "N", "M"), ("N", "N", "N"), ("N", "M", "P"), ("N", "P", "M")):
+            cases.append(f"in={a} out={b} err={c} det=0 argv={TRUE} samefile={same}")
     # descriptor exhaustion at each pipe() of a launch with three pipes (and at the fcntl after it)
     for k in range(4):
         cases.append(f"in=P out=P err=P det=0 argv={TRUE} faults=P.pipe.{k}.24")
@@ -238,6 +243,10 @@ def oracle_c05(c, viol):
         if (fields[name] != "0") != (tok == "P"):
             viol(f"Popen.{name} is {'Some' if fields[name] != '0' else 'None'} for redirection {tok}")
     snap = snapshot(c)
+    if snap is not None and "M" in (o, e) and snap.get("shr12") == "0":
+        viol(f"redirection Merge (out={o} err={e}): the child's descriptors 1 and 2 are two separate open files on the same inode "
+             f"({snap.get('fd1')}, {snap.get('fd2')}), each with an offset of its own, not one open file as `2>&1` gives: what is "
+             f"written through one is overwritten through the other")
     if snap is None:
         viol("no exec snapshot of the child")
         return
@@ -563,6 +572,15 @@ def gen_c08(ctx):
     for closed in CLOSED_SETS:
         for i, o, e in itertools.product(["N", "P"], repeat=3):
             cases.append(f"in={i} out={o} err={e} det=0 live={(0, 2)[len(cases) % 2]} argv={TRUE} closed={closed}")
+    # a configuration holding files is cloned (a template, a retry copy) and the copy stays alive while the original -- or the
+    # copy, while the original stays alive -- is launched: the descriptors the clone made are the library's, and must not
+    # show up in any child
+    for vc in (1, 2):
+        for i, o, e in (("F", "F", "F"), ("F", "P", "N"), ("N", "F", "P"), ("P", "N", "F"), ("R", "R", "N"), ("N", "R", "R")):
+            if vc == 1 and "F" in (i, o, e):
+                continue  # the clone's copies have descriptor numbers of their own, which the request to the model cannot name
+            a, b, c = triple_spec(i, o, e, True)
+            cases.append(f"in={a} out={b} err={c} det=0 live={(0, 2)[vc - 1]} viaclone={vc} argv={TRUE}")
     # launches whose child fails at one of its own steps, while other Popens are alive: the child must end (it holds a copy of
     # everything the parent had at fork time, whatever the close-on-exec flags say) -- every child-side step that can fail
     for i, o, e in (("N", "N", "N"), ("P", "P", "P")):
